@@ -163,8 +163,13 @@ namespace GeographicLib {
      **********************************************************************/
     Accumulator& remainder(T y) {
       using std::remainder;
+      // Reduce both words, so that the sum is in [-y, y], renormalize, and
+      // reduce the (now dominant) high word again.
       _s = remainder(_s, y);
+      _t = remainder(_t, y);
       Add(0);                   // This renormalizes the result.
+      _s = remainder(_s, y);
+      Add(0);
       return *this;
     }
     /**
